@@ -11,12 +11,11 @@ Model: Model/C18.lean — drop events (local: `handleReceivedErrorWithMessage`; 
 two mailboxes and its `Receive`, count requests.  A history is any list of events, so every interleaving of
 concurrent droppers, of the drain goroutine and of the dead-letter actor's turns is covered.
 
-`C18_full` (every history) is FALSE of the current code: a failed batch handed to a full fan-out queue is
-dropped with a log line only (`C18_refuted`; same root cause as C27-F2, recorded here as C18-F1).
-`C18_partial`: for every history whose batch hand-offs find room in the queue, after quiescence the published
-dead letters are a permutation of exactly the dead letters owed (one per dropped user message, original
-message / sender / receiver / reason), the total counter equals the number published, and every per-receiver
-counter equals the number published for that receiver.  `count_reply_*`: every count the system reports is the
+`C18_holds : C18_full`: for EVERY history of drop events, drain steps, dead-letter-actor turns and count requests
+(fan-out queue of any capacity, hand-offs to a full queue included — since fix f8d2f6b they are dead-lettered
+inline; before it that was finding C18-F1), after quiescence the published dead letters are a permutation of exactly
+the dead letters owed (one per dropped user message, original message / sender / receiver / reason), the total
+counter equals the number published, and every per-receiver counter equals the number published for that receiver.  `count_reply_*`: every count the system reports is the
 number published when the request is served.
 -/
 import GoaktVerif.Model.C18
@@ -112,33 +111,33 @@ theorem inv_quiesce (s : Sys) (exp : List DL) (hi : Inv s exp) :
 
 /-! ### the property -/
 
-/-- The full statement: for EVERY history of events on a running system, once the system is quiescent the
-    published dead letters are exactly (as a multiset) the dead letters owed, and the counters agree. -/
+/-- the events of the property's universe (see `okEv`): everything but the two dead-letter-actor commands that are
+    no traffic -/
+def traffic : Ev → Bool
+  | .publishAll => false
+  | .restartDL => false
+  | _ => true
+
+theorem guarded_of_traffic (evs : List Ev) (s : Sys) (h : evs.all traffic = true) : guarded s evs = true := by
+  induction evs generalizing s with
+  | nil => rfl
+  | cons e es ih =>
+    simp only [List.all_cons, Bool.and_eq_true] at h
+    simp only [guarded, Bool.and_eq_true]
+    refine ⟨?_, ih _ h.2⟩
+    cases e <;> simp_all [okEv, traffic]
+
+/-- The full statement: for EVERY history of drop events (all four causes, including hand-offs that find the
+    fan-out queue full), drain-goroutine steps, dead-letter-actor turns and count requests on a running system with a
+    fan-out queue of ANY capacity: once the system is quiescent the published dead letters are exactly (as a multiset)
+    the dead letters owed, the total counter equals the number published and every per-receiver counter its tally. -/
 def C18_full : Prop :=
-  ∀ (cap : Nat) (evs : List Ev),
+  ∀ (cap : Nat) (evs : List Ev), evs.all traffic = true →
     let s := quiesce (run (init cap) evs)
-    s.published.Perm (expected evs) ∧ s.counter = s.published.length
+    s.published.Perm (expected evs) ∧ s.counter = s.published.length ∧ (∀ r, lookupN s.per r = tally s.published r)
 
-/-- witness (queue of capacity 1, two failed batches handed over before the drain goroutine runs):
-    the second batch is dropped with a log line only — no dead letter (C18-F1 = dead-letter side of C27-F2) -/
-def overflowWitness : List Ev :=
-  [.batchFail [⟨some 7, some 1, some 3⟩], .batchFail [⟨some 7, some 2, some 3⟩]]
-
-theorem overflow_facts :
-    (quiesce (run (init 1) overflowWitness)).published = [⟨1, 3, 7, .batch⟩]
-    ∧ expected overflowWitness = [⟨1, 3, 7, .batch⟩, ⟨2, 3, 7, .batch⟩] := by decide
-
-theorem C18_refuted : ¬ C18_full := by
-  intro h
-  have h1 := (h 1 overflowWitness).1
-  have hl := h1.length_eq
-  rw [overflow_facts.1, overflow_facts.2] at hl
-  simp at hl
-
-/-- THE THEOREM.  Guard: every `batchFail` finds room in the fan-out queue, and the history contains neither a
-    `PublishDeadletters` command nor a restart of the dead-letter actor (nothing in goakt sends the former; the
-    latter re-runs `handlePostStart`, which zeroes the counters).  Then, whatever the interleaving: -/
-theorem C18_partial (cap : Nat) (evs : List Ev) (hg : guarded (init cap) evs = true) :
+/-- the detailed form, stated with the step-wise guard -/
+theorem C18_quiescent (cap : Nat) (evs : List Ev) (hg : guarded (init cap) evs = true) :
     let s := quiesce (run (init cap) evs)
     s.published.Perm (expected evs)
     ∧ s.counter = s.published.length
@@ -152,6 +151,32 @@ theorem C18_partial (cap : Nat) (evs : List Ev) (hg : guarded (init cap) evs = t
   intro d
   have := hi.owed d
   simpa [hs, hf, pendBox, pendFq] using this
+
+/-- THE THEOREM (since fix f8d2f6b the statement holds in full; before it, a batch handed to a full fan-out queue
+    got no dead letter: finding C18-F1, `C18_refuted` in the history of this file). -/
+theorem C18_holds : C18_full := by
+  intro cap evs ht
+  have h := C18_quiescent cap evs (guarded_of_traffic evs _ ht)
+  exact ⟨h.1, h.2.1, h.2.2.1⟩
+
+/-- regression for C18-F1 (queue of capacity 1, two failed batches handed over before the drain goroutine runs):
+    the second batch, which finds the queue full, is dead-lettered inline — both dead letters are published -/
+def overflowWitness : List Ev :=
+  [.batchFail [⟨some 7, some 1, some 3⟩], .batchFail [⟨some 7, some 2, some 3⟩]]
+
+theorem overflow_regression :
+    (quiesce (run (init 1) overflowWitness)).published = [⟨2, 3, 7, .batch⟩, ⟨1, 3, 7, .batch⟩]
+    ∧ expected overflowWitness = [⟨1, 3, 7, .batch⟩, ⟨2, 3, 7, .batch⟩]
+    ∧ (quiesce (run (init 1) overflowWitness)).counter = 2 := by decide
+
+/-- a hand-off that finds the queue full (or the system shutting down) is published inline, message by message -/
+theorem full_queue_inline (s : Sys) (ms : List BatchMsg) (h1 : s.dlRunning = true) (h2 : s.guardianRunning = true)
+    (hfull : s.shuttingDown = true ∨ s.fqCap ≤ s.fq.length) :
+    batchFail s ms = { s with sysBox := s.sysBox ++ (ms.filterMap batchDL).map Cmd.send } := by
+  unfold batchFail
+  rcases hfull with h | h
+  · simp [h, foldl_drainMsg ms s h1 h2]
+  · by_cases hs : s.shuttingDown <;> simp [hs, h, foldl_drainMsg ms s h1 h2]
 
 /-- non-trivial instance of the guard: all four causes, interleaved with dead-letter turns and a count request -/
 def sampleHistory : List Ev :=
@@ -168,7 +193,7 @@ example : (quiesce (run (init 256) sampleHistory)).replies = [4] := by decide
     is owed — in particular a dead letter owed once appears once, and one not owed never appears -/
 theorem C18_once (cap : Nat) (evs : List Ev) (hg : guarded (init cap) evs = true) (d : DL) :
     (quiesce (run (init cap) evs)).published.count d = (expected evs).count d :=
-  List.perm_iff_count.mp (C18_partial cap evs hg).1 d
+  List.perm_iff_count.mp (C18_quiescent cap evs hg).1 d
 
 /-- every total count the system reports is the number of dead letters published when the request is served,
     at ANY point of a guarded history (not only at quiescence) -/
